@@ -63,7 +63,8 @@ deriving DecidableEq, Repr
 
 def set (d : Dir) (k : Key) (v : Bytes) : Dir × Res :=
   let n := fileName k
-  if n.contains 47 then (d, .unmodelled)
+  if isTempName n then (d, .err)                       -- reserved for temporary siblings: refused (F21 repair)
+  else if n.contains 47 then (d, .unmodelled)
   else if fileNameOk n then (apply d (setOps n v), .ok)
   else (d, .err)
 
@@ -71,7 +72,8 @@ def set (d : Dir) (k : Key) (v : Bytes) : Dir × Res :=
     succeeds and reading it fails with 0 bytes, so the directory names yield an empty value. -/
 def get (d : Dir) (k : Key) : Res :=
   let n := fileName k
-  if n.contains 47 then .unmodelled
+  if isTempName n then .err
+  else if n.contains 47 then .unmodelled
   else if isDirName n then .val []
   else match lookup d n with
     | some c => .val c
@@ -79,11 +81,13 @@ def get (d : Dir) (k : Key) : Res :=
 
 def delete (d : Dir) (k : Key) : Dir × Res :=
   let n := fileName k
-  if n.contains 47 || isDirName n then (d, .unmodelled)
+  if isTempName n then (d, .err)
+  else if n.contains 47 || isDirName n then (d, .unmodelled)
   else if (lookup d n).isSome then (erase d n, .ok) else (d, .err)
 
 /-- the suffix is compared with the file names as they are (not stripped) -/
-def keysWithSuffix (d : Dir) (s : Bytes) : Res := .keys (listSuffix d s)
+def keysWithSuffix (d : Dir) (s : Bytes) : Res :=
+  .keys ((listSuffix d s).filter (fun n => !isTempName (stripColon n)))    -- temporary siblings are not keys
 
 def reopen (d : Dir) : Dir := d
 
